@@ -18,6 +18,8 @@ def go_run(work, scenarios, extra_files=()):
         os.remove(out_path)
     rc, gout = go_test(work, SIM_FILES + list(extra_files), "^TestVerifSim$",
                        {"VERIF_IN": work.path("scen.jsonl"), "VERIF_OUT": out_path}, synctest=True)
+    import vlib
+    vlib.note_crash(out_path, scenarios, rc, gout)
     if rc != 0 or not os.path.exists(out_path):
         return False, gout, []
     outs = read_jsonl(out_path)
